@@ -439,12 +439,49 @@ class Writes:
         return out
 
 
-def returns_only_none(prog: Program, fi: FuncInfo) -> bool:
-    """Every return of fi is bare / `return None` (and the function is not a generator)."""
+def returns_only_none(prog: Program, fi: FuncInfo, flows=None, _stack=None) -> bool:
+    """Every value fi can return is None (and the function is not a generator).
+
+    Syntactic without `flows`; with `flows` a returned local is followed through all its reaching definitions and a
+    returned call through all its in-src targets (transitively), so `x = super().f(); return x` is None-valued when the
+    base method is."""
+    _stack = _stack or set()
+    if fi.qual in _stack:
+        return True          # a cycle adds no value of its own
+    _stack = _stack | {fi.qual}
     for n in ast.walk(fi.node):
         if isinstance(n, (ast.Yield, ast.YieldFrom)):
             return False
-        if isinstance(n, ast.Return) and n.value is not None:
-            if not (isinstance(n.value, ast.Constant) and n.value.value is None):
+    fl = flows.get(fi) if flows is not None else None
+
+    def none_valued(e, st) -> bool:
+        if isinstance(e, ast.Constant):
+            return e.value is None
+        if flows is None:
+            return False
+        if isinstance(e, ast.Call):
+            tg = [t for t in prog.call_targets(fi, e, count=False) if isinstance(t, FuncInfo)]
+            if not tg:
                 return False
+            return all(returns_only_none(prog, t, flows, _stack) for t in tg)
+        if isinstance(e, ast.IfExp):
+            return none_valued(e.body, st) and none_valued(e.orelse, st)
+        return False
+
+    for n in ast.walk(fi.node):
+        if isinstance(n, ast.Return) and n.value is not None:
+            if isinstance(n.value, ast.Constant) and n.value.value is None:
+                continue
+            if fl is None:
+                return False
+            try:
+                st = fl.state_at(n)
+                alts = fl.alternatives(n.value, st)
+            except Exception:
+                return False
+            for a in alts:
+                if isinstance(a, ast.Name):
+                    return False                     # parameter / opaque definition
+                if not none_valued(a, st):
+                    return False
     return True
